@@ -96,6 +96,8 @@ struct Reply {
     size: u32,
     body: [u8; 40],
     nfds: usize,
+    /// the stream ended before the body was complete: whatever the header says, this is not a reply
+    cut: bool,
 }
 /// The reply's control words (request code, flags, size) are concrete per harness, selected by the
 /// reply class below; body bytes and descriptor count stay symbolic.  Symbolic control words make
@@ -104,7 +106,8 @@ struct Reply {
 /// explores the io::Error drop glue (measured: 0.7M -> 2.7M steps, 30 s -> 170 s).  Arbitrary control words
 /// are covered at unit level (c06_u_*), where the endpoint is built on the stack.
 /// class 0: conformant (same code, version 1 | REPLY, exact size); 1: other request code;
-/// 2: REPLY flag missing; 3: version 2; 4: reserved flag bit set; 5: size one larger
+/// 2: REPLY flag missing; 3: version 2; 4: reserved flag bit set; 5: size one larger;
+/// 6: conformant header, then the peer closes the connection before any body byte arrives
 static mut REPLY_CLASS: (usize, u64) = (0, 0x7733_1199_5522_aa01);
 fn script_reply(req_code: u32, natural: usize, alive_after: bool) -> Reply {
     // SAFETY: single-threaded harness
@@ -128,22 +131,22 @@ fn script_reply(req_code: u32, natural: usize, alive_after: bool) -> Reply {
         g::put64(28, spec::rd64(&body, 16));
         g::put64(36, spec::rd64(&body, 24));
         g::put64(44, spec::rd64(&body, 32));
-        g::G.rx_len = 12 + natural;
-        g::G.rx_closed = !alive_after;
+        g::G.rx_len = if class == 6 { 12 } else { 12 + natural };
+        g::G.rx_closed = !alive_after || class == 6;
         g::G.rx_nfds = nfds;
         g::G.rx_fd_call = 1;
     }
-    Reply { code, flags, size, body, nfds }
+    Reply { code, flags, size, body, nfds, cut: class == 6 && natural > 0 }
 }
 impl Reply {
     /// is this a reply to the request `req_code` at header level (C06: REPLY flag, same code, valid header)
     fn hdr_matches(&self, req_code: u32) -> bool {
-        self.code == req_code && self.flags & spec::F_REPLY != 0
+        !self.cut && self.code == req_code && self.flags & spec::F_REPLY != 0
             && spec::valid_header(spec::frontend_code_known(self.code), self.flags, self.size)
     }
     /// fully conformant header as a spec backend would write it
     fn hdr_conformant(&self, req_code: u32, natural: usize) -> bool {
-        self.code == req_code && self.flags == (spec::F_VERSION_1 | spec::F_REPLY) && self.size as usize == natural
+        !self.cut && self.code == req_code && self.flags == (spec::F_VERSION_1 | spec::F_REPLY) && self.size as usize == natural
     }
 }
 
@@ -625,8 +628,17 @@ fn e_frontend(op: u32, variant: usize) {
         }
         drop(n);
     }
+    // descriptors that ride on a reply which by definition carries none (or on a reply that is refused) never
+    // reach the caller: the library must have closed them
+    if !matches!(op, fe::GET_INFLIGHT_FD | fe::GET_SHARED_OBJECT | fe::SET_DEVICE_STATE_FD) {
+        // SAFETY: ghost state
+        unsafe {
+            assert!(!g::G.double_close, "C09: double close");
+            assert!(g::G.fd_state[0] != g::FD_OPEN && g::G.fd_state[1] != g::FD_OPEN, "C09: descriptors attached to a reply / acknowledgement that defines none are closed by the library");
+        }
+    }
     // with a reply that answers another request the witness is the error path
-    let wrong = unsafe { REPLY_CLASS.0 >= 1 && REPLY_CLASS.0 <= 4 && g::G.rx_calls > 0 };
+    let wrong = unsafe { ((REPLY_CLASS.0 >= 1 && REPLY_CLASS.0 <= 4) || REPLY_CLASS.0 == 6) && g::G.rx_calls > 0 };
     kani::cover!(if wrong { !wit } else { wit }, "witness: the operation's success path (error path for a foreign reply) is reachable");
 }
 
@@ -878,6 +890,8 @@ e_fe!(e_fe_get_features_version2, 1, 768);
 e_fe!(e_fe_get_features_reservedbit, 1, 1024);
 // @harness props=C01,C02,C03,C06,C10 tier=thorough reach=off timeout=500 bound="Frontend::get_features_size_plus1: all argument values, five 64-bit negotiation/limit words, NEED_REPLY on/off, peer reply header of one concrete class (conformant unless named in the harness), 40 symbolic body bytes, 0..=2 descriptors; one call" stubs="vmm-sys-util raw_recvmsg/raw_sendmsg (ghost stream socket), libc::close + OwnedFd::drop (ghost descriptor table), handle_alloc_error (assume false)"
 e_fe!(e_fe_get_features_size_plus1, 1, 1280);
+// @harness props=C01,C02,C03,C06,C08,C09,C10 tier=quick reach=off timeout=500 bound="Frontend::get_features_body_cut_by_eof: all argument values, five 64-bit negotiation/limit words, NEED_REPLY on/off, peer reply header of one concrete class (conformant unless named in the harness), 40 symbolic body bytes, 0..=2 descriptors; one call" stubs="vmm-sys-util raw_recvmsg/raw_sendmsg (ghost stream socket), libc::close + OwnedFd::drop (ghost descriptor table), handle_alloc_error (assume false)"
+e_fe!(e_fe_get_features_body_cut_by_eof, 1, 1536);
 // @harness props=C01,C02,C03,C06,C10 tier=quick reach=off timeout=500 bound="Frontend::set_features: all argument values, five 64-bit negotiation/limit words, NEED_REPLY on/off, peer reply header of one concrete class (conformant unless named in the harness), 40 symbolic body bytes, 0..=2 descriptors; one call" stubs="vmm-sys-util raw_recvmsg/raw_sendmsg (ghost stream socket), libc::close + OwnedFd::drop (ghost descriptor table), handle_alloc_error (assume false)"
 e_fe!(e_fe_set_features, 2, 0);
 // @harness props=C01,C02,C03,C06,C10 tier=thorough reach=off timeout=500 bound="Frontend::set_owner: all argument values, five 64-bit negotiation/limit words, NEED_REPLY on/off, peer reply header of one concrete class (conformant unless named in the harness), 40 symbolic body bytes, 0..=2 descriptors; one call" stubs="vmm-sys-util raw_recvmsg/raw_sendmsg (ghost stream socket), libc::close + OwnedFd::drop (ghost descriptor table), handle_alloc_error (assume false)"
@@ -910,6 +924,8 @@ e_fe!(e_fe_set_vring_num_version2, 8, 768);
 e_fe!(e_fe_set_vring_num_reservedbit, 8, 1024);
 // @harness props=C01,C02,C03,C06,C10 tier=thorough reach=off timeout=500 bound="Frontend::set_vring_num_size_plus1: all argument values, five 64-bit negotiation/limit words, NEED_REPLY on/off, peer reply header of one concrete class (conformant unless named in the harness), 40 symbolic body bytes, 0..=2 descriptors; one call" stubs="vmm-sys-util raw_recvmsg/raw_sendmsg (ghost stream socket), libc::close + OwnedFd::drop (ghost descriptor table), handle_alloc_error (assume false)"
 e_fe!(e_fe_set_vring_num_size_plus1, 8, 1280);
+// @harness props=C01,C02,C03,C06,C08,C09,C10 tier=quick reach=off timeout=500 bound="Frontend::set_vring_num_body_cut_by_eof: all argument values, five 64-bit negotiation/limit words, NEED_REPLY on/off, peer reply header of one concrete class (conformant unless named in the harness), 40 symbolic body bytes, 0..=2 descriptors; one call" stubs="vmm-sys-util raw_recvmsg/raw_sendmsg (ghost stream socket), libc::close + OwnedFd::drop (ghost descriptor table), handle_alloc_error (assume false)"
+e_fe!(e_fe_set_vring_num_body_cut_by_eof, 8, 1536);
 // @harness props=C01,C02,C03,C06,C10 tier=quick reach=off timeout=500 bound="Frontend::set_vring_addr: all argument values, five 64-bit negotiation/limit words, NEED_REPLY on/off, peer reply header of one concrete class (conformant unless named in the harness), 40 symbolic body bytes, 0..=2 descriptors; one call" stubs="vmm-sys-util raw_recvmsg/raw_sendmsg (ghost stream socket), libc::close + OwnedFd::drop (ghost descriptor table), handle_alloc_error (assume false)"
 e_fe!(e_fe_set_vring_addr, 9, 0);
 // @harness props=C01,C02,C03,C06,C10 tier=thorough reach=off timeout=500 bound="Frontend::set_vring_base: all argument values, five 64-bit negotiation/limit words, NEED_REPLY on/off, peer reply header of one concrete class (conformant unless named in the harness), 40 symbolic body bytes, 0..=2 descriptors; one call" stubs="vmm-sys-util raw_recvmsg/raw_sendmsg (ghost stream socket), libc::close + OwnedFd::drop (ghost descriptor table), handle_alloc_error (assume false)"
@@ -950,6 +966,8 @@ e_fe!(e_fe_get_inflight_fd_version2, 31, 768);
 e_fe!(e_fe_get_inflight_fd_reservedbit, 31, 1024);
 // @harness props=C01,C02,C03,C06,C07,C09,C10 tier=thorough reach=off timeout=500 bound="Frontend::get_inflight_fd_size_plus1: all argument values, five 64-bit negotiation/limit words, NEED_REPLY on/off, peer reply header of one concrete class (conformant unless named in the harness), 40 symbolic body bytes, 0..=2 descriptors; one call" stubs="vmm-sys-util raw_recvmsg/raw_sendmsg (ghost stream socket), libc::close + OwnedFd::drop (ghost descriptor table), handle_alloc_error (assume false)"
 e_fe!(e_fe_get_inflight_fd_size_plus1, 31, 1280);
+// @harness props=C01,C02,C03,C06,C07,C08,C09,C10 tier=thorough reach=off timeout=500 bound="Frontend::get_inflight_fd_body_cut_by_eof: all argument values, five 64-bit negotiation/limit words, NEED_REPLY on/off, peer reply header of one concrete class (conformant unless named in the harness), 40 symbolic body bytes, 0..=2 descriptors; one call" stubs="vmm-sys-util raw_recvmsg/raw_sendmsg (ghost stream socket), libc::close + OwnedFd::drop (ghost descriptor table), handle_alloc_error (assume false)"
+e_fe!(e_fe_get_inflight_fd_body_cut_by_eof, 31, 1536);
 // @harness props=C01,C02,C03,C06,C07,C09,C10 tier=thorough reach=off timeout=500 bound="Frontend::set_inflight_fd: all argument values, five 64-bit negotiation/limit words, NEED_REPLY on/off, peer reply header of one concrete class (conformant unless named in the harness), 40 symbolic body bytes, 0..=2 descriptors; one call" stubs="vmm-sys-util raw_recvmsg/raw_sendmsg (ghost stream socket), libc::close + OwnedFd::drop (ghost descriptor table), handle_alloc_error (assume false)"
 e_fe!(e_fe_set_inflight_fd, 32, 0);
 // @harness props=C01,C02,C03,C06,C07,C10 tier=thorough reach=off timeout=500 bound="Frontend::reset_device: all argument values, five 64-bit negotiation/limit words, NEED_REPLY on/off, peer reply header of one concrete class (conformant unless named in the harness), 40 symbolic body bytes, 0..=2 descriptors; one call" stubs="vmm-sys-util raw_recvmsg/raw_sendmsg (ghost stream socket), libc::close + OwnedFd::drop (ghost descriptor table), handle_alloc_error (assume false)"
@@ -972,6 +990,8 @@ e_fe!(e_fe_get_shared_object_version2, 41, 768);
 e_fe!(e_fe_get_shared_object_reservedbit, 41, 1024);
 // @harness props=C01,C02,C03,C06,C07,C09,C10 tier=thorough reach=off timeout=500 bound="Frontend::get_shared_object_size_plus1: all argument values, five 64-bit negotiation/limit words, NEED_REPLY on/off, peer reply header of one concrete class (conformant unless named in the harness), 40 symbolic body bytes, 0..=2 descriptors; one call" stubs="vmm-sys-util raw_recvmsg/raw_sendmsg (ghost stream socket), libc::close + OwnedFd::drop (ghost descriptor table), handle_alloc_error (assume false)"
 e_fe!(e_fe_get_shared_object_size_plus1, 41, 1280);
+// @harness props=C01,C02,C03,C06,C07,C08,C09,C10 tier=thorough reach=off timeout=500 bound="Frontend::get_shared_object_body_cut_by_eof: all argument values, five 64-bit negotiation/limit words, NEED_REPLY on/off, peer reply header of one concrete class (conformant unless named in the harness), 40 symbolic body bytes, 0..=2 descriptors; one call" stubs="vmm-sys-util raw_recvmsg/raw_sendmsg (ghost stream socket), libc::close + OwnedFd::drop (ghost descriptor table), handle_alloc_error (assume false)"
+e_fe!(e_fe_get_shared_object_body_cut_by_eof, 41, 1536);
 // @harness props=C01,C02,C03,C06,C07,C09,C10 tier=quick reach=off timeout=500 bound="Frontend::set_device_state_fd_file: all argument values, five 64-bit negotiation/limit words, NEED_REPLY on/off, peer reply header of one concrete class (conformant unless named in the harness), 40 symbolic body bytes, 0..=2 descriptors; one call" stubs="vmm-sys-util raw_recvmsg/raw_sendmsg (ghost stream socket), libc::close + OwnedFd::drop (ghost descriptor table), handle_alloc_error (assume false)"
 e_fe!(e_fe_set_device_state_fd_file, 42, 0);
 // @harness props=C01,C02,C03,C06,C07,C09,C10 tier=thorough reach=off timeout=500 bound="Frontend::set_device_state_fd_nofile: all argument values, five 64-bit negotiation/limit words, NEED_REPLY on/off, peer reply header of one concrete class (conformant unless named in the harness), 40 symbolic body bytes, 0..=2 descriptors; one call" stubs="vmm-sys-util raw_recvmsg/raw_sendmsg (ghost stream socket), libc::close + OwnedFd::drop (ghost descriptor table), handle_alloc_error (assume false)"
